@@ -13,17 +13,32 @@ LEVEL_TEXT = ("Lean theorems over the model of Library.add: library_add (never r
               "with the key precedes it - and the complete duplicate), string variants, other_kinds_register_nothing, "
               "dup_field_wrapper + dup_field_not_registered (splitter: every field occurrence kept in order, key not live), "
               "dupKeys_nonempty_iff, readd_is_identity (survives the Library(blocks) rebuild every block middleware performs) - "
-              "for all block lists / all derivations; tied to library.py + splitter.py by differential execution on documents "
-              "whose keys come from a pool of 3.")
+              "for all block lists / all derivations. Pipeline level: models_agree / models_agree_indexes / models_agree_spec (the "
+              "assert-free Library.add fold inside the model of the default parse stack builds the same blocks and indexes as the "
+              "model with the _cast_to_duplicate asserts, = addAllSpec), resolve_keeps_skeleton, remove_enclosing_keeps_skeleton, "
+              "readd_skeleton (a block list with the skeletons of a library is a fixed point of Library(blocks): nothing re-wrapped, "
+              "nothing dropped), default_stack_keeps_structure / default_stack_structure_total (for EVERY text parse_string(text) "
+              "succeeds and returns, position by position, blocks with the skeleton - class, type, key, field keys and lines in "
+              "order, start line, raw, failure reason, duplicated keys, wrapper key and the skeletons of previous block and "
+              "duplicate - of parse_string(text, parse_stack=[]); only values and parser metadata may differ), and its corollaries "
+              "count_preserved_default, count_blocks_default (grammar documents: one non-free-text block per source block), "
+              "first_wins_default, later_wrapped_default, string_later_wrapped_default, dup_field_default. Tied to library.py + "
+              "splitter.py + the default parse stack by differential execution on documents whose keys come from a pool of 3.")
 LEVEL_NOTE = ("Trusted: Lean kernel + 3 standard axioms; the hand-written models AddAll.lean (Library.add) and Split.lean; the "
-              "correspondence run; dict = insertion-ordered assoc list. The default parse stack's value transformations are "
-              "C10/C11; here only that the block structure survives it is compared.")
+              "correspondence run; dict = insertion-ordered assoc list. For the pipeline-level theorems additionally the models "
+              "Interpolate.lean (ResolveStringReferences + its Library.add fold), Enclosing.lean (RemoveEnclosing, BlockMiddleware "
+              "dispatch) and their composition Pipeline.parseDefault, each compared with the real parse_string(text) on every case "
+              "(complete blocks incl. values and metadata; a duplicate-key block's previous_block only as (class, key) there - its "
+              "aliasing with the live block is modelled but not transmitted). What the value transformations do is C10/C11; here "
+              "that they leave the block structure alone is proved.")
 TECHNIQUE = "Lean 4 proof: invariant of sequential key-safe insertion vs a first-occurrence specification; differential correspondence"
 RULE = ("grammar-derived documents with entry keys, @string keys and field keys drawn from pools of 3 (collisions of every "
         "multiplicity and interleaving: entry vs string with the same name, duplicates of duplicate-field entries), plus "
         "bounded-exhaustive sequences of <= k tiny blocks over {@a{x}, @a{y}, @string{x=1}, @a{x,f=1,f=2}, @comment{c}, junk} "
-        "(k=5 quick, 6 thorough). Compared: parse_string(text, parse_stack=[]).blocks vs the model; the impl side also checks "
-        "that the default parse stack keeps the same block structure. Non-trivial = at least one duplicate block.")
+        "(k=5 quick, 6 thorough). Every text is sent twice: parse_string(text, parse_stack=[]).blocks vs the model of "
+        "splitter + Library.add (request parse0), and parse_string(text).blocks vs the model of the default parse stack "
+        "(request parsedefault); the impl side also checks on the real objects that the default parse stack keeps every "
+        "block's skeleton (the Lean `skel`). Non-trivial = at least one duplicate block.")
 EXHAUSTIVE = {"quick": False, "thorough": False}
 ASSUMPTIONS = []
 PARTIAL = []
@@ -39,13 +54,14 @@ def corpus():
         "@a{x, f = 1, F = 2, f = 3, h = 4, h = 5}",
         "@a{ x }@a{x }@a{ x}",
     ]
-    return [{"t": t} for t in texts]
+    return [{"t": t} for t in texts] + [{"t": t, "d": 1} for t in texts]
 
 
 def gen(tier, rng):
     k = 5 if tier == "quick" else 6
     for t in C.token_strings(TINY, k):
         yield {"t": t}
+        yield {"t": t, "d": 1}
     n = 3000 if tier == "quick" else 30000
     made = 0
     while made < n:
@@ -55,32 +71,57 @@ def gen(tier, rng):
             continue
         made += 1
         yield {"t": d.text()}
+        yield {"t": d.text(), "d": 1}
 
 
 def request(case):
     t = case["t"]
     if not lean_representable(t):
         return None
+    if case.get("d"):
+        return rq("parsedefault", t, chars_of=t)      # the default parse stack (Pipeline.parseDefault)
     return rq("parse0", t, chars_of=t)
 
 
+def _skel_live(b):
+    """the Lean `skelLive`: class, type, key, field keys + lines, text of comments/preambles, line, raw - no values, no metadata"""
+    from bibtexparser import model as M
+    if isinstance(b, M.Entry):
+        return ("entry", b.entry_type, b.key, tuple((f.key, f.start_line) for f in b.fields), b.start_line, b.raw)
+    if isinstance(b, M.String):
+        return ("string", b.key, b.start_line, b.raw)
+    if isinstance(b, M.Preamble):
+        return ("preamble", b.value, b.start_line, b.raw)
+    if isinstance(b, M.ExplicitComment):
+        return ("expl", b.comment, b.start_line, b.raw)
+    if isinstance(b, M.ImplicitComment):
+        return ("impl", b.comment, b.start_line, b.raw)
+    return ("other", type(b).__name__)
+
+
 def _structure(blocks):
+    """the Lean `skel` of every block"""
     from bibtexparser import model as M
     out = []
     for b in blocks:
         if isinstance(b, M.DuplicateBlockKeyBlock):
-            out.append(("dupkey", b.key, type(b.ignore_error_block).__name__, b.start_line))
+            out.append(("dupkey", b.key, _skel_live(b.previous_block), _skel_live(b.ignore_error_block)))
         elif isinstance(b, M.DuplicateFieldKeyBlock):
-            out.append(("dupfield", b.ignore_error_block.key, tuple(f.key for f in b.ignore_error_block.fields), b.start_line))
+            out.append(("dupfield", tuple(sorted(b.duplicate_keys)), _skel_live(b.ignore_error_block)))
+        elif isinstance(b, M.MiddlewareErrorBlock):
+            out.append(("mwerror", type(b.error).__name__, _skel_live(b.ignore_error_block)))
         elif isinstance(b, M.ParsingFailedBlock):
-            out.append(("failed", b.start_line))
+            out.append(("failed", str(B.fail_class(b.error)), b.start_line, b.raw))
         else:
-            out.append((type(b).__name__, getattr(b, "key", None), b.start_line))
+            out.append(_skel_live(b))
     return out
 
 
 def impl(case):
     import bibtexparser
+    if case.get("d"):
+        lib2 = bibtexparser.parse_string(case["t"])
+        return C.ok(B.enc_blocks(lib2.blocks, prev=False))
     lib = bibtexparser.parse_string(case["t"], parse_stack=[])
     res = C.ok(B.enc_blocks(lib.blocks))
     lib2 = bibtexparser.parse_string(case["t"])
